@@ -61,6 +61,10 @@ func (l *ledger) onOp(s *sim.Sim, op *sim.OpRec) {
 	}
 	for id, b := range before {
 		a, still := after[id]
+		if !still && op.Err != nil && op.Kind != "update" {
+			// (a failing batch update that applied its leave half is the recorded C03 finding)
+			l.c.Failf("C01.refused-departure-took-chips", "%s was refused, yet %s and the %d chips in front of him are gone although nobody departed", op.String(), id, b.Bankroll)
+		}
 		if !still {
 			// departed (accepted leave, or a partially applied failing batch): took b.Bankroll along
 			l.out += b.Bankroll
